@@ -5,11 +5,11 @@ import Sentinel.Model.Isolation
 
     ops:  `load <res:threshold>*`
           `entry <id> <res> <batch>`            => `pass` | `block iso <rule-index> <triggered-value>` | `dup`
-          `exit <id>`
+          `exit <id> [err]`, `dexit <id>` (two concurrent Exit calls), `trace <id>` (no-op), `entry … type=<t>` (same as without)
           `conc <res>`                          => gauge
           `sched <id0> <res> <b0,b1,…> <i0,i1,…|->`  => `[r0,…] max=<g>`   (r = `-` idle, `p` in flight, `x` exited, `b<idx>:<tv>` blocked)
           `par <id0> <k> <res> <batch>`         = `sched id0 res b,…,b 0,…,k-1,0,…,k-1`
-          `soak <res> <goroutines> <rounds> <batch>` => `gauge0=ok max<=<bound> rej=ok total=ok`  (real goroutines looping Entry/Exit;
+          `soak <res> <goroutines> <rounds> <batch> [x2]` => `gauge0=ok max<=<bound> min=ok rej=ok total=ok`  (real goroutines looping Entry/Exit;
                                                   only verdicts against the bounds are printed, never the racy values) -/
 namespace Sentinel.Drv.C04
 open Sentinel.Iso Sentinel.Drv
@@ -27,10 +27,22 @@ def rule? (s : String) : Option (String × UInt32) :=
 def list? {α} (f : String → Option α) (s : String) : Option (List α) :=
   if s = "-" then some [] else (s.splitOn ",").mapM f
 
+def soak? (res g rounds b : String) : Option Op := do
+  let g ← g.toNat?
+  let rounds ← rounds.toNat?
+  if g = 0 ∨ g > 64 ∨ rounds > 1000000 then none else some (.soak res g rounds (← u32? b))
+
+def resType (s : String) : Bool :=
+  ["type=common", "type=web", "type=rpc", "type=gateway", "type=dbsql", "type=cache", "type=mq"].contains s
+
 def parse : List String → Option Op
   | "load" :: rs => (rs.mapM rule?).map .load
   | ["entry", id, res, b] => do some (.entry (← id.toNat?) res (← u32? b))
+  | ["entry", id, res, b, ty] =>     -- the gauge belongs to the resource NAME, whatever the resource type of the entry
+      if resType ty then do some (.entry (← id.toNat?) res (← u32? b)) else none
   | ["exit", id] => do some (.exit (← id.toNat?))
+  | ["exit", id, "err"] => do some (.exit (← id.toNat?))      -- an error on the entry changes nothing in the accounting
+  | ["dexit", id] => do some (.exit (← id.toNat?))            -- Exit called twice at once = one Exit
   | ["conc", res] => some (.conc res)
   | ["sched", id0, res, bs, s] => do
       let bs ← list? u32? bs
@@ -40,10 +52,8 @@ def parse : List String → Option Op
       let k ← k.toNat?
       if k = 0 ∨ k > 64 then none else
       some (.sched (← id0.toNat?) res (List.replicate k (← u32? b)) (List.range k ++ List.range k))
-  | ["soak", res, g, rounds, b] => do
-      let g ← g.toNat?
-      let rounds ← rounds.toNat?
-      if g = 0 ∨ g > 64 ∨ rounds > 1000000 then none else some (.soak res g rounds (← u32? b))
+  | ["soak", res, g, rounds, b] => soak? res g rounds b
+  | ["soak", res, g, rounds, b, "x2"] => soak? res g rounds b
   | _ => none
 
 def showPc : Pc → String
@@ -61,14 +71,21 @@ def showOut : Out → Option String
   | .dup => some "dup"
   | .val g => some (toString g)
   | .sched th mx => some (showList (th.map showPc) ++ s!" max={mx}")
-  | .soak bound => some s!"gauge0=ok max<={bound} rej=ok total=ok"
+  | .soak bound => some s!"gauge0=ok max<={bound} min=ok rej=ok total=ok"
+
+/-- `trace <id>` (api.TraceError) never touches rules, gauges or handles: a no-op of both machines -/
+def isTrace : List String → Bool
+  | ["trace", id] => id.toNat?.isSome
+  | _ => false
 
 def stepModel (s : St) (ts : List String) (_ : String) : St × Option String :=
+  if isTrace ts then (s, none) else
   match parse ts with
   | some op => let (s', o) := step s op; (s', showOut o)
   | none => (s, some "bad-op")
 
 def stepSpec (s : SpecSt) (ts : List String) (_ : String) : SpecSt × Option String :=
+  if isTrace ts then (s, none) else
   match parse ts with
   | some op => let (s', o) := specStep s op; (s', showOut o)
   | none => (s, some "bad-op")
